@@ -59,6 +59,14 @@ let down_line line =
   Printf.printf "%s flag %s\n" id (if setReversible cs then "true" else "false");
   Printf.printf "%s golang-migrate.0 %s\n" id (hs (up_body cs));
   show_res id "golang-migrate.1" (down_body cs);
+  let closed = Stdlib.List.for_all (fun c ->
+      let rs = reverseStmts c in
+      (rs = [] || no_nl c.c_comment) && Stdlib.List.for_all line_closed rs) cs in
+  (match down_body cs with
+   | Ok d when closed ->
+     Printf.printf "%s golang-migrate.scan %s\n" id
+       (Sha256.hs (String.concat "\x00" (Stdlib.List.map string_of_bytes (line_scan d))))
+   | _ -> Printf.printf "%s golang-migrate.scan open\n" id);
   show_res id "goose.0" (goose_file cs);
   Printf.printf "%s flyway.0 %s\n" id (hs (up_body cs));
   show_res id "flyway.1" (down_body cs);
